@@ -244,7 +244,7 @@ class ArrayUnionMatcher(CombinationMatcher):
         return self._docnum < self._doccount
 
     def max_quality(self):
-        return max(m.max_quality() for m in self._submatchers)
+        return sum(m.max_quality() for m in self._submatchers) * self._boost
 
     def block_quality(self):
         return max(self._a)
